@@ -93,6 +93,8 @@ class RemotePickler36(pickle.Pickler):
         from ..remote_pickle import SupportRemoteGetState
         super().__init__(*args, **kwargs)
         self._remote = remote
-        self.dispatch_table = dyn_dispatch_table(self.remote_reduce) if self._remote else {}
+        # a per-pickler dispatch_table replaces copyreg.dispatch_table: start from its content so that
+        # types registered with copyreg (e.g. compiled regular expressions) stay picklable
+        self.dispatch_table = dyn_dispatch_table(self.remote_reduce, copyreg.dispatch_table) if self._remote else dict(copyreg.dispatch_table)
         for cls in SupportRemoteGetState.supported_classes:
             self.dispatch_table[cls] = self.remote_reduce
